@@ -261,6 +261,43 @@ func scenarios() []*sched.Scenario {
 		a.check(final)
 		b.check(final)
 	}})
+	// one mutation naming the same element as added and as deleted (absent before, present before), racing a writer
+	out = append(out, &sched.Scenario{Name: "set/overlapping-mutation+subscribers", Run: func() {
+		s := reactive.NewSet[int]()
+		s.Add(2)
+		a, b := newSetSub("A"), newSetSub("B")
+		s.OnUpdate(a.cb)
+		vrt.Par(
+			func() {
+				s.Apply(ds.NewSetMutations[int]().WithAddedElements(ds.NewSet(1, 2)).WithDeletedElements(ds.NewSet(1, 2)))
+			},
+			func() { s.Add(3) },
+			func() { s.OnUpdate(b.cb) },
+		)
+		vrt.Quiesce()
+		final := s.ToSlice()
+		vrt.Observe("final", fmt.Sprint(final))
+		a.check(final)
+		b.check(final)
+	}})
+	// a subscriber of a DERIVED set that is written through two sources (and directly): same ordering guarantees
+	out = append(out, &sched.Scenario{Name: "derivedset/two-source-writers+subscribers", QuickMaxBound: 1, Run: func() {
+		s1, s2 := reactive.NewSet[int](), reactive.NewSet[int]()
+		d := reactive.NewDerivedSet[int]()
+		d.InheritFrom(s1, s2)
+		a, b := newSetSub("A"), newSetSub("B")
+		d.OnUpdate(a.cb)
+		vrt.Par(
+			func() { s1.Add(1); s1.Delete(1) },
+			func() { s2.Add(1); s2.Add(2) },
+			func() { d.OnUpdate(b.cb) },
+		)
+		vrt.Quiesce()
+		final := d.ToSlice()
+		vrt.Observe("final", fmt.Sprint(final))
+		a.check(final)
+		b.check(final)
+	}})
 	out = append(out, &sched.Scenario{Name: "set/replace-add+subscribers", Run: func() {
 		s := reactive.NewSet[int]()
 		s.Add(1)
